@@ -150,6 +150,10 @@ def fault_files(td: Path) -> list[tuple[str, list[str]]]:
     sc.append(("only-comment", [w("cmt.py", b"# nothing")]))
     sc.append(("no-final-newline", [w("nonl.py", b"x = int(0)")]))
     sc.append(("syntax-error", [w("syn.py", b"def f(:\n")]))
+    sc.append(("tuple-times-huge-int", [w("huge.py", b"t = (1,) * 100000000000000000000\n")]))     # found by the C06 thorough generator
+    ok = w("ok_for_stats.py", body.encode())
+    sc.append(("timing-stats-into-missing-dir", [ok, "--timing-stats", str(td / "no" / "such" / "dir" / "stats.json")]))
+    sc.append(("timing-stats-is-a-directory", [ok, "--timing-stats", str(td)]))
     sc.append(("indent-error", [w("ind.py", b"if 1:\nx = 1\n")]))
     sc.append(("missing-file", [str(td / "does_not_exist.py")]))
     (td / "emptydir").mkdir()
@@ -206,10 +210,22 @@ def run(ctx: Ctx) -> None:
              "AST-mutated near-misses of test/data idioms, a stdlib sample; non-trivial = input reaches the checks or a distinct fault path; distinct by file content")
     vm, gen = translate(ctx)
     b = None
+    gens, order = {}, []
     if gen is not None:
-        b = coq.compile_props(ctx, {"GenVisitor": gen}, ["GenVisitor", "C03", "C03Guards"])
+        gens["GenVisitor"] = gen
+        order += ["GenVisitor", "C03", "C03Guards"]
+    try:
+        from ..translate.routing import translate as translate_routing
+        gens["GenRouting"], rsum = translate_routing(REPO)
+        order += ["GenRouting", "C03Routing"]
+        ctx.extra["routing_summary"] = {"functions": len(rsum.funcs), "functions_that_let_something_out": sum(1 for v in rsum.direct.values() if v),
+                                        "call_sites": sum(len(v) for v in rsum.calls.values())}
+    except Exception as e:  # noqa: BLE001
+        ctx.obligation("translate exception routing (driver modules)", False, f"{type(e).__name__}: {e}")
+    if order:
+        b = coq.compile_props(ctx, gens, order)
         coq.record_build(ctx, b)
-        if vm is not None:
+        if vm is not None and gen is not None:
             for k, info in vm.kind_info.items():
                 if not info["registered"]:
                     ctx.notes.append(f"no accept() overload for mypy node class {k}")
@@ -257,5 +273,6 @@ def run(ctx: Ctx) -> None:
         ctx.samples.append({"mutant_example": Path(muts[0]).read_text()[:300] if muts else ""})
     finally:
         shutil.rmtree(td, ignore_errors=True)
-    ctx.resolve_broken({"dispatch_total": "crash:", "traverse_no_exn": "crash:", "no_none_deref": "crash:"},
+    ctx.resolve_broken({"dispatch_total": "crash:", "traverse_no_exn": "crash:", "no_none_deref": "crash:", "main_routes_every_exception": "crash:",
+                        "translate exception routing (driver modules)": "crash:"},
                        b.first_error if b else "")
